@@ -28,6 +28,9 @@ BAD_STATEMENTS = [
     ("bad-match-reference", {"k": "raw", "text": "match $undefined_ref.Finished()"}),
     ("bad-match-reference-none", {"k": "raw", "text": "$noref_zz = None\n@IND@match $noref_zz.Finished()"}),
     ("bad-match-reference-not-an-object", {"k": "raw", "text": "$noref_zz = 5\n@IND@match $noref_zz.Finished()"}),
+    # an event name that a FLOW reference does not have (checked by an assert in the runtime, not by a Colang error class)
+    ("bad-match-flow-ref-event", {"k": "raw", "text": "start zchild as $fref_zz\n@IND@match $fref_zz.Done()"}),
+    ("bad-send-flow-ref-event", {"k": "raw", "text": "start zchild as $fref_zz\n@IND@send $fref_zz.Done()"}),
     ("bad-return-expression", {"k": "return", "expr": "1 / 0"}),
     ("bad-return-reference", {"k": "return", "expr": "$undefined_zz.value"}),
     ("division-by-zero", {"k": "assign", "var": "$bad", "expr": "1 / 0"}),
@@ -42,7 +45,7 @@ BAD_STATEMENTS = [
 ]
 MATCH_TIME = ["bad-match-regex", "bad-match-compare", "bad-match-regex-in-or-group", "bad-match-regex-second-in-or-group", "bad-match-with-child-on-same-event", "bad-match-and-group"]
 # match statements whose error fires when the head ARRIVES on them (the event reference cannot be resolved), not when an event comes
-ARRIVAL_TIME = ("bad-match-reference", "bad-match-reference-none", "bad-match-reference-not-an-object")
+ARRIVAL_TIME = ("bad-match-reference", "bad-match-reference-none", "bad-match-reference-not-an-object", "bad-match-flow-ref-event")
 BAD_BY_NAME = dict(BAD_STATEMENTS)
 
 WITNESS = [
